@@ -154,3 +154,16 @@ def solve_frame(s, t, at, info, fit="dlite", method=None, allow_negatives=False,
     r.record = getattr(r.fm, "_verif_record", None)
     r.cols = column_interfaces(r.frame, r.fm, info, at)
     return r
+
+
+def displace_post(at, dz):
+    """move every junction j by dz[j] (complex, default 0) and shear each interface linearly between its ends"""
+    def post(jpos, ipts):
+        out = []
+        for ii, pts in enumerate(ipts):
+            it = at["I"][ii]
+            n = len(pts) - 1
+            da, db = dz.get(it["a"], 0j), dz.get(it["b"], 0j)
+            out.append([p + da * (1 - m / n) + db * (m / n) for m, p in enumerate(pts)])
+        return {j: z + dz.get(j, 0j) for j, z in jpos.items()}, out
+    return post
